@@ -153,10 +153,7 @@ def load_performance_midi(
             if isinstance(msg, mido.MetaMessage):
                 if msg.type == "set_tempo":
                     mpq = msg.tempo
-                    if (
-                        tempo_changes[-1][1] != mpq
-                    ):  # only add new tempo if it's different from the last one
-                        tempo_changes.append((ttick, mpq))
+                    tempo_changes.append((ttick, mpq))
                     time_conversion_factor = mpq / (ppq * 10**6)
                 elif msg.type == "time_signature":
                     time_signatures.append(
@@ -292,6 +289,10 @@ def load_performance_midi(
             )
 
             pps.append(pp)
+
+    # tempo changes apply to all tracks: order them by tick
+    # (stable sort: file order is kept within a tick)
+    tempo_changes.sort(key=lambda tc: tc[0])
 
     # adjust timing of events based on tempo changes
     for pp in pps:
